@@ -186,11 +186,26 @@ def run(w: World, rep: Report):
     # path selection: 32-byte second item -> script path; the test is on the peeked item length
     sel = [t for t in cfg.nodes if t.kind == 'test' and cfg.reaches(t, en) and cfg.reaches(t, cn)]
     ok = False
+    from .rules_c02 import _accepted_lengths
     for t in sel:
         txt = ast.unparse(t.ast)
+        cands = [t.ast]
         d = cfg.defs_reaching(txt, t) if txt.isidentifier() else []
-        for _, how, pl in d:
-            if how == 'assign' and ast.unparse(pl).replace(' ', '').endswith('==32') and 'len(' in ast.unparse(pl):
+        cands += [pl for _, how, pl in d if how == 'assign' and isinstance(pl, ast.AST)]
+        for c in cands:
+            # the test holds for exactly the 32-byte length of the item it looks at (a name or the peeked item itself)
+            c2 = c
+
+            class P(ast.NodeTransformer):
+                def visit_Call(self, n):
+                    self.generic_visit(n)
+                    if isinstance(n.func, ast.Attribute) and n.func.attr == 'peek' and not n.args:
+                        return ast.Name(id='peeked__', ctx=ast.Load())
+                    return n
+            import copy as _copy
+            c2 = P().visit(_copy.deepcopy(c))
+            al = _accepted_lengths(c2)
+            if al is not None and al[1] == {32}:
                 ok = True
     rep.check('C05.R2', f'functions.{fi.name}|path-selected-by-32-byte-item', ok, line=fi.node.lineno, file=REL,
               why='' if ok else 'script path / key path are not selected by the 32-byte length of the next item')
